@@ -185,6 +185,15 @@ func verifyMycatHashRuleSliceInfos(locations []int, slices []string, databases [
 		return nil, errors.ErrLocationsCount
 	}
 
+	// one physical database per table index: the router maps database names back to table indexes
+	seen := make(map[string]bool, len(realDatabaseList))
+	for _, db := range realDatabaseList {
+		if seen[db] {
+			return nil, fmt.Errorf("database %s duplicate in databases %v", db, databases)
+		}
+		seen[db] = true
+	}
+
 	return tableToSlice, nil
 }
 
